@@ -232,4 +232,43 @@ theorem wrapLine_pieces (l : Nat) (hl : 2 ≤ l) (line : Bytes) :
 /-- the width `wrapText` works with is never below 10, so the two theorems above apply -/
 example (l : Int) : 2 ≤ (if l < 10 then 10 else l.toNat) := by split <;> omega
 
+/-! ### One column for all descriptions -/
+
+
+theorem runeCount_append_spaces (a : Bytes) (k : Nat) : runeCount (a ++ spaces k) = runeCount a + k := by
+  induction k generalizing a with
+  | zero => simp [spaces]
+  | succ k ih =>
+    have : a ++ spaces (k + 1) = (a ++ [0x20]) ++ spaces k := by
+      simp [spaces, List.replicate_succ]
+    rw [this, ih]
+    unfold runeCount
+    rw [runes_append_noncont a 0x20 [] (by decide), runes_ascii 0x20 [] (by decide), runes_nil]
+    simp; omega
+
+/-- **All descriptions start in one column.**  For every option that has a description, whatever
+    its names, value name and choices: when the row does not panic, the text before the description
+    is the option column followed by blanks, and together they are exactly `descriptionStart + 2`
+    characters wide — a width that depends on the alignment information only, not on the option. -/
+theorem description_column_is_common (o : Opt) (longNS envKey : Bytes) (info : AlignInfo) (row : Bytes)
+    (hvis : o.hidden = false) (hdesc : o.desc ≠ [])
+    (h : helpOptionText o longNS envKey info = some row) :
+    ∃ pad rest, row = helpOptionHead o longNS info ++ pad ++ rest ∧ (∀ c ∈ pad, c = 0x20) ∧
+      runeCount (helpOptionHead o longNS info ++ pad) = info.descriptionStart + 2 := by
+  unfold helpOptionText at h
+  simp only [hvis, Bool.false_eq_true, if_false, hdesc, ne_eq, not_false_eq_true, if_true] at h
+  cases hr : repeatSp (((info.descriptionStart + 2 : Nat) : Int) - runeCount (helpOptionHead o longNS info)) with
+  | none => rw [hr] at h; simp at h
+  | some pad =>
+    rw [hr] at h
+    simp only [Option.some.injEq] at h
+    unfold repeatSp at hr
+    split at hr
+    · simp at hr
+    · next hge =>
+      simp only [Option.some.injEq] at hr
+      refine ⟨pad, _, h.symm.trans (List.append_assoc _ _ _), ?_, ?_⟩
+      · intro c hc; rw [← hr] at hc; simp [spaces] at hc; exact hc.2
+      · rw [← hr, runeCount_append_spaces]
+        omega
 end GoFlags.C17
